@@ -24,7 +24,7 @@ __CPROVER_loop_invariant(max_splits != 0 ==> ret->size <= max_splits)
 __CPROVER_loop_invariant(g_pj < ret->size ==> (g_pstart <= s->size && g_plen < s->size - g_pstart && g_pstart + g_plen < token_start_offset))
 __CPROVER_loop_invariant((g_pj < ret->size && g_pj == 0) ==> g_pstart == 0)
 __CPROVER_loop_invariant(g_pj < ret->size ==> s->data[g_pstart + g_plen] == delim)
-__CPROVER_loop_invariant((g_pj < ret->size && IN_PIECE(g_sk)) ==> s->data[g_sk] != delim)
+__CPROVER_loop_invariant((g_pj < ret->size && g_rk < g_plen) ==> s->data[g_pstart + g_rk] != delim)
 __CPROVER_loop_invariant(g_pj + 1 < ret->size ==> g_nstart == g_pstart + g_plen + 1)
 __CPROVER_loop_invariant(g_pj + 1 == ret->size ==> token_start_offset == g_pstart + g_plen + 1)
 __CPROVER_decreases(s->size - token_start_offset)
@@ -52,7 +52,7 @@ __CPROVER_loop_invariant(verif_i == 0 ==> ret->size == 0)%(extra_inv)s
 __CPROVER_loop_invariant(g_pj < verif_i ==> PJ_OK(items))
 __CPROVER_loop_invariant((g_pj < verif_i && g_pj == 0) ==> g_joff == 0)
 __CPROVER_loop_invariant(g_pj < verif_i ==> (g_joff <= ret->size && PJ_LEN(items) <= ret->size - g_joff))
-__CPROVER_loop_invariant((g_pj < verif_i && g_ok >= g_joff && g_ok - g_joff < PJ_LEN(items)) ==> g_oval == g_srcd[PJ_START(items) + (g_ok - g_joff)])
+__CPROVER_loop_invariant((g_pj < verif_i && g_obase == g_joff && g_rk < PJ_LEN(items)) ==> g_oval == g_srcd[PJ_START(items) + g_rk])
 __CPROVER_loop_invariant(g_pj + 1 < verif_i ==> g_joff2 == g_joff + PJ_LEN(items) + %(seplen)d)
 %(sep_inv)s
 __CPROVER_loop_invariant(g_pj + 1 == verif_i ==> ret->size == g_joff + PJ_LEN(items))
@@ -81,7 +81,7 @@ def join_unit(ctx, src):
                new_header='void join_delim(vout* ret, const vsvec* items, char delim)',
                rules=common + [R(r'\bret\.empty\(\)', '(ret->size == 0)', None), L('ret += delim;', 'c8_push_back(ret, delim);')],
                nloops=1, loops={1: JOIN_LOOP % dict(seplen=1, extra_inv=extra_inv, extra_assigns=extra_assigns,
-                   sep_inv='__CPROVER_loop_invariant((g_pj + 1 < verif_i && g_ok == g_joff + PJ_LEN(items)) ==> g_oval == delim)')})
+                   sep_inv='__CPROVER_loop_invariant((g_pj + 1 < verif_i && g_obase == g_joff + PJ_LEN(items) && g_rk == 0) ==> g_oval == delim)')})
     u.function(src, HH, r'std::string join\(const ItemContainerT& items\)',
                new_header='void join_plain(vout* ret, const vsvec* items)', rules=common,
                nloops=1, loops={1: JOIN_LOOP % dict(seplen=0, extra_inv='', extra_assigns='', sep_inv='')})
